@@ -53,7 +53,7 @@ from redun.hashing import hash_call_node, hash_struct
 from redun.logging import logger as _logger
 from redun.promise import Promise, wait_promises
 from redun.scheduler_config import REDUN_INI_FILE, postprocess_config
-from redun.tags import parse_tag_value
+from redun.tags import CONTEXT_KEY, parse_tag_value
 from redun.task import (
     CacheCheckValid,
     CacheResult,
@@ -2063,6 +2063,10 @@ class Scheduler:
 
         # Record Job tags.
         job_tags = job.get_option("tags", []) + job.job_tags
+        if job.context_hash:
+            # A CallNode is content-addressed and can be shared by calls made under different
+            # contexts (or none), so also record the context on the Job itself (used by CSE).
+            job_tags = job_tags + [(CONTEXT_KEY, job.context_hash)]
         if job_tags:
             self.backend.record_tags(entity_type=TagEntity.Job, entity_id=job.id, tags=job_tags)
 
